@@ -67,17 +67,20 @@ def gen_source(cond: Cond, kind: str) -> str:
         "import sys",
         f"sys.path.insert(0, {str(ROOT)!r})",
         "from typing import *",
-        f"import {cond.harness} as H",
+        f"import {cond.harness} as _HARNESS",
         f"CFG = {cond.cfg!r}",
         "",
         f"def cond({sig}) -> bool:",
         '    """',
     ]
+    for n, t in cond.params:
+        if t == "float":  # finite reals only (excludes nan / inf, which the real-valued model cannot represent)
+            lines.append(f"    pre: -1e12 <= {n} <= 1e12")
     for p in cond.pre:
         lines.append(f"    pre: {p}")
     lines.append(f"    post: {post}")
     lines.append('    """')
-    lines.append(f"    return H.{cond.body}(CFG{', ' if call else ''}{call})")
+    lines.append(f"    return _HARNESS.{cond.body}(CFG{', ' if call else ''}{call})")
     return "\n".join(lines) + "\n"
 
 
@@ -124,6 +127,12 @@ def parse_call_args(message: str, params: Sequence[Tuple[str, str]]) -> Optional
 
 
 def _install_realfloats():
+    """pin float to CrossHair's real-valued model (its default mixes a real and an IEEE model at
+    random and then never reports exhaustion). NOTE: CrossHair's float factory still forks every
+    float *argument* into finite / nan / +inf / -inf before the preconditions are evaluated
+    (4^k leaves for k float arguments, all but one failing the finiteness precondition), so
+    conditions keep k <= 6. Replacing the factory was tried and makes CrossHair report
+    'not confirmed' on exhausted trees; it is therefore left alone."""
     from crosshair.libimpl import builtinslib as b
 
     b._PYTYPE_TO_WRAPPER_TYPE[float] = ((b.RealBasedSymbolicFloat, 1.0),)
